@@ -100,8 +100,9 @@ def _frame(exc):
 class Collector:
     """collects every failed clause of one case; raises the most informative one at the end"""
 
-    def __init__(self):
+    def __init__(self, prefix="C05.topo"):
         self.fails = []
+        self.prefix = prefix
 
     def check(self, cond, sig, msg=""):
         if not cond:
@@ -116,7 +117,7 @@ class Collector:
             fr = _frame(e)
             if fr is None:
                 raise
-            self.fails.append((f"C05.topo|exc|{name}|{type(e).__name__}|{fr[0]}:{fr[1]}|{cls}", f"{type(e).__name__}: {e}"))
+            self.fails.append((f"{self.prefix}|exc|{name}|{type(e).__name__}|{fr[0]}:{fr[1]}|{cls}", f"{type(e).__name__}: {e}"))
             return None
 
     def finish(self, case_text, ctx, focus=None):
@@ -810,6 +811,164 @@ def pool_case(draw):
     return case
 
 
+# ---------------------------------------------------------------------------------- free functions x array forms
+
+FORMS = ["c_int64", "fortran", "transposed_view", "strided_view", "reversed_view", "readonly", "int32", "uint32", "list"]
+
+
+def _form(rows, width, form):
+    """the same (n, width) index values in a different container / memory layout / dtype"""
+    base = np.array(rows, dtype=np.int64).reshape((-1, width))
+    if form == "c_int64":
+        return base
+    if form == "fortran":
+        return np.asfortranarray(base)
+    if form == "transposed_view":
+        return np.ascontiguousarray(base.T).T
+    if form == "strided_view":
+        big = np.full((2 * len(base) + 1, 2 * width + 1), -7, dtype=np.int64)
+        big[1::2, 1::2] = base
+        return big[1::2, 1::2]
+    if form == "reversed_view":
+        return np.ascontiguousarray(base[::-1, ::-1])[::-1, ::-1]
+    if form == "readonly":
+        out = base.copy()
+        out.flags.writeable = False
+        return out
+    if form == "int32":
+        return base.astype(np.int32)
+    if form == "uint32":
+        return base.astype(np.uint32)
+    if form == "list":
+        return [list(r) for r in base.tolist()]
+    raise ValueError(form)
+
+
+@body("C05.free")
+def b_free(case, ctx):
+    """the free functions of geometry / graph which take a face or edge array, given the same indices as a
+    Fortran-ordered array, transposed / strided / reversed view, read-only array, int32 / uint32 array and
+    nested list: the answers are those of the counting oracle whatever the container"""
+    faces = [tuple(int(v) for v in f) for f in case["faces"]]
+    nv = int(case["nv"])
+    nf = len(faces)
+    w = _oracle(faces, nv)
+    cls = w["cls"]
+    occ = w["occ"]
+    shared = any(len({w["w_edges_face"][k] for k in ks}) >= 2 for ks in occ.values())
+    forms = case.get("forms") or FORMS
+    ctx.note(nontrivial=shared and nf >= 2, cls=[f"free:{cls}"] + ["form:" + f for f in forms])
+    col = Collector("C05.free")
+    want_adj = Counter((r[0], r[1]) + r[2] for r in w["w_adj"])
+    incidence = {(v, i) for i, f in enumerate(faces) for v in f}
+    half = nf // 2
+    set_a = {O.sort_edge(e) for e in O.directed_edges(faces[:half])[0]}
+    set_b = {O.sort_edge(e) for e in O.directed_edges(faces[half:])[0]}
+    slot_weight = [float(k + 1) for k in range(3 * nf)]
+    want_weight = {}
+    for k in range(3 * nf):
+        key = (faces[k // 3][k % 3], k // 3)
+        want_weight[key] = want_weight.get(key, 0.0) + slot_weight[k]
+    nodes_f = list(range(nf))
+    for form in forms:
+        tag = f"|form={form}|{cls}"
+        fa = _form(faces, 3, form)
+        ea = _form(w["w_edges"], 2, form)
+        aa = _form([r[:2] for r in w["w_adj"]], 2, form)
+
+        def call(name, fn):
+            return col.call(name + "|form=" + form, fn, cls)
+
+        if nf:
+            r = call("faces_to_edges", lambda: geometry.faces_to_edges(fa, return_index=True))
+            if r is not None:
+                col.check(_rows(r[0], 2) == w["w_edges"] and [int(i) for i in r[1]] == w["w_edges_face"], "C05.free|faces_to_edges" + tag, lambda: f"{np.asarray(r[0]).tolist()} want {w['w_edges']}")
+            r = call("index_sparse", lambda: geometry.index_sparse(nv, fa))
+            sparse_ok = None
+            if r is not None:
+                dense = np.asarray(r.toarray())
+                ok = dense.shape == (nv, nf) and {(int(a), int(b)) for a, b in zip(*np.nonzero(dense))} == incidence
+                col.check(ok, "C05.free|index_sparse" + tag, lambda: f"nonzero (vertex, face) {np.argwhere(dense).tolist()} want {sorted(incidence)}")
+                sparse_ok = r if ok else None
+            r = call("index_sparse(data)", lambda: geometry.index_sparse(nv, fa, data=np.array(slot_weight), dtype=np.float64))
+            if r is not None:
+                dense = np.asarray(r.toarray())
+                have = {(int(a), int(b)): float(dense[a, b]) for a, b in zip(*np.nonzero(dense))} if dense.shape == (nv, nf) else None
+                col.check(have == want_weight, "C05.free|index_sparse(data)" + tag, lambda: f"data of slot k belongs to (faces[k//3][k%3], k//3): got {have} want {want_weight}")
+            if sparse_ok is not None:
+                r = call("vertex_face_indices", lambda: geometry.vertex_face_indices(nv, fa, sparse_ok))
+                if r is not None:
+                    r = np.asarray(r)
+                    width = max(w["w_degree"]) if nv else 0
+                    ok = r.shape == (nv, width)
+                    if ok:
+                        for v, row in enumerate(r.tolist()):
+                            k = len(w["w_vfaces"][v])
+                            ok = ok and sorted(row[:k]) == w["w_vfaces"][v] and all(x == -1 for x in row[k:])
+                    col.check(ok, "C05.free|vertex_face_indices" + tag, lambda: f"{r.tolist()} want {w['w_vfaces']}")
+            r = call("face_adjacency", lambda: graph.face_adjacency(faces=fa, return_edges=True))
+            if r is not None:
+                a, e = _rows(r[0], 2), _rows(r[1], 2)
+                col.check(len(a) == len(e) and Counter(p + q for p, q in zip(a, e)) == want_adj, "C05.free|face_adjacency" + tag, lambda: f"pairs {a} edges {e} want {sorted(want_adj.elements())}")
+            # the caller's array must not be modified (face_adjacency sorts edges in place)
+            col.check(np.array_equal(np.asarray(fa), np.array(faces, dtype=np.int64).reshape((-1, 3))), "C05.free|input_modified" + tag, "a free function wrote into the face array it was given")
+            if half:
+                fb_a, fb_b = _form(faces[:half], 3, form), _form(faces[half:], 3, form)
+                r = call("shared_edges", lambda: graph.shared_edges(fb_a, fb_b))
+                if r is not None:
+                    rows = _rows(r, 2)
+                    col.check(len(rows) == len(set(rows)) and set(rows) == (set_a & set_b), "C05.free|shared_edges" + tag, lambda: f"{rows} want {sorted(set_a & set_b)}")
+            # is_watertight and neighbors index / iterate their argument directly: arrays only
+            r = call("is_watertight", lambda: graph.is_watertight(ea)) if form != "list" else None
+            if r is not None:
+                col.check((bool(r[0]), bool(r[1])) == (w["w_water"], w["w_wind"]), "C05.free|is_watertight" + tag, lambda: f"{r} want {(w['w_water'], w['w_wind'])}")
+            r = call("edges_to_coo", lambda: graph.edges_to_coo(ea, count=nv))
+            if r is not None:
+                dense = np.asarray(r.toarray())
+                col.check(dense.shape == (nv, nv) and {(int(a), int(b)) for a, b in zip(*np.nonzero(dense))} == set(w["w_edges"]), "C05.free|edges_to_coo" + tag, lambda: f"{np.argwhere(dense).tolist()}")
+            if form != "list":
+                r = call("neighbors", lambda: graph.neighbors(ea, max_index=nv))
+                if r is not None:
+                    hi = O.vertex_neighbors(faces, nv, with_loops=True)
+                    col.check(len(r) == nv and all({int(x) for x in row} == hi[v] for v, row in enumerate(r)), "C05.free|neighbors" + tag, lambda: f"{[[int(x) for x in row] for row in r]} want {[sorted(x) for x in hi]}")
+        nodes = _form([[i] for i in nodes_f], 1, form)
+        nodes = [i[0] for i in nodes] if form == "list" else nodes[:, 0]
+        vnodes = _form([[i] for i in range(nv)], 1, form)
+        vnodes = [i[0] for i in vnodes] if form == "list" else vnodes[:, 0]
+        for eng in ENGINES:
+            if nf:
+                r = call("connected_components", lambda: graph.connected_components(aa, nodes=nodes, engine=eng))
+                if r is not None:
+                    col.check(_parts(r) == _want_parts(w["w_fcomp"]), f"C05.free|connected_components|face_graph|engine={eng}" + tag, lambda: f"{[list(map(int, c)) for c in r]} want {sorted(map(sorted, w['w_fcomp']))}")
+                r = call("connected_components", lambda: graph.connected_components(ea, nodes=vnodes, engine=eng))
+                if r is not None:
+                    col.check(_parts(r) == _want_parts(w["w_vcomp"]), f"C05.free|connected_components|vertex_graph|engine={eng}" + tag, lambda: f"{[list(map(int, c)) for c in r]} want {sorted(map(sorted, w['w_vcomp']))}")
+        if nf:
+            r = call("connected_component_labels", lambda: graph.connected_component_labels(ea, node_count=nv))
+            if r is not None:
+                groups = {}
+                for i, l in enumerate(np.asarray(r).reshape(-1).tolist()):
+                    groups.setdefault(l, []).append(i)
+                col.check(_parts(groups.values()) == _want_parts(w["w_vcomp"]), "C05.free|connected_component_labels" + tag, lambda: f"{np.asarray(r).tolist()} want {sorted(map(sorted, w['w_vcomp']))}")
+    col.finish(f"faces={case['faces'] if nf <= 16 else str(case['faces'][:16]) + '...'} nv={nv}", ctx, case.get("focus"))
+
+
+def free_cases(tier_quick, seed):
+    """enumerated part: every F <= 2 array over 4 indices (quick: every 5th), all forms"""
+    for k, c in enumerate(enum_small(2)):
+        if not tier_quick or k % 5 == seed % 5:
+            yield {"faces": c["faces"], "nv": c["nv"], "src": "enum"}
+    for k, c in enumerate(enum_glued(False)):
+        if k % 54 == 0:
+            yield {"faces": c["faces"], "nv": c["nv"], "src": "glued"}
+
+
+@st.composite
+def free_case(draw):
+    c = draw(st.one_of(soup(), soup(), pool_case()))
+    return {"faces": c["faces"], "nv": c["nv"], "src": c["src"]}
+
+
 # ---------------------------------------------------------------------------------- sub-checks
 
 
@@ -841,7 +1000,21 @@ def s_pool(ctx):
     ctx.given("C05.topo", pool_case(), n={"quick": 1200, "thorough": 25000})
 
 
+@subcheck("C05", "free_enum", shards={"quick": 4, "thorough": 8})
+def s_free_enum(ctx):
+    ctx.enumerate("C05.free", free_cases(ctx.tier == "quick", ctx.seed), label="free_functions_x_array_forms_F<=2", complete=ctx.tier != "quick")
+
+
+@subcheck("C05", "free_hyp", shards={"quick": 4, "thorough": 8})
+def s_free_hyp(ctx):
+    ctx.given("C05.free", free_case(), n={"quick": 800, "thorough": 20000})
+
+
 REQUIRED_CLASSES["C05"] = [
+    "form:fortran",
+    "form:list",
+    "free:edge_count>=3",
+    "free:closed",
     "enum:repeated_index",
     "enum:edge_count>=3",
     "enum:duplicate_face",
